@@ -42,6 +42,9 @@ func (p piece) src() string {
 
 func call(f string, a ...*N) *N { return Call(Id(f), a...) }
 
+// newEnv: the host provides one global of its own, hostn = 0, which the pieces may reassign.
+func newEnv() *rt.Env { return rt.NewEnv(map[string]any{"hostn": 0}) }
+
 func alphabet() []piece {
 	pr := func(s string) *N { return Expr(call("print", Str(s))) }
 	return []piece{
@@ -85,6 +88,11 @@ func alphabet() []piece {
 		{Group: "forward", Name: "fa->fb;fa()", Prog: []*N{FuncDecl("fa", nil, Return(call("fb"))), FuncDecl("fb", nil, Return(Bin("+", Id("x"), Int(7)))), Expr(call("fa"))}},
 		{Group: "forward", Name: "fa()", Prog: []*N{Expr(call("fa"))}},
 		// a piece that fails by exhausting the operand stack many frames deep: the session goes on
+		// a name the host provides, reassigned by the script: the new value holds in the following pieces
+		{Group: "hostname", Name: "hostn+=5", Prog: []*N{Assign(Id("hostn"), "+=", Int(5))}},
+		{Group: "hostname", Name: "hostn", Prog: []*N{Expr(Id("hostn"))}},
+		{Group: "hostname", Name: "func rh;rh()", Prog: []*N{FuncDecl("rh", nil, Set1("hostn", Bin("+", Id("hostn"), Int(100))), Return(Id("hostn"))), Expr(call("rh"))}},
+		{Group: "hostname", Name: "rh()", Prog: []*N{Expr(call("rh"))}},
 		{Group: "overflow", Name: "overflow", Prog: []*N{FuncDecl("deep", P("n"), Return(Bin("+", Int(1), call("deep", Bin("+", Id("n"), Int(1)))))), Expr(call("deep", Int(0)))}},
 	}
 }
@@ -150,7 +158,7 @@ func incremental(env *rt.Env, alpha []piece, seq []int) (steps []stepOut, global
 	}
 	globals = map[string]string{}
 	if m != nil {
-		for _, n := range []string{"x", "y", "c", "xs"} {
+		for _, n := range []string{"x", "y", "c", "xs", "hostn"} {
 			if v, err := m.Get(n); err == nil && v != nil {
 				globals[n] = v.Inspect()
 			}
@@ -162,6 +170,7 @@ func incremental(env *rt.Env, alpha []piece, seq []int) (steps []stepOut, global
 // model runs the same history on the reference session.
 func model(alpha []piece, seq []int) (steps []stepOut, globals map[string]string, ok bool) {
 	s := refsem.NewSession(20000)
+	s.DefineGlobal("hostn", int64(0))
 	for _, k := range seq {
 		o := s.Piece(alpha[k].Prog, alpha[k].Syntax)
 		switch {
@@ -177,7 +186,7 @@ func model(alpha []piece, seq []int) (steps []stepOut, globals map[string]string
 	}
 	g := s.Globals()
 	globals = map[string]string{}
-	for _, n := range []string{"x", "y", "c", "xs"} {
+	for _, n := range []string{"x", "y", "c", "xs", "hostn"} {
 		if v, ok := g[n]; ok {
 			globals[n] = v
 		}
@@ -249,6 +258,9 @@ func judgeFam(r *ev.Run, env *rt.Env, alpha []piece, seq []int, verbose bool, fa
 			delete(gg, k)
 		}
 	}
+	if _, ran := gg["hostn"]; !ran {
+		delete(wg, "hostn") // no piece was accepted: there is no VM to ask for the host global
+	}
 	if gshow(gg) != gshow(wg) {
 		r.Report("C18:globals:"+cause(alpha, seq, len(seq)-1, want), fmt.Sprintf("pieces %q\n  final globals: incremental %s, reference %s", names, gshow(gg), gshow(wg)), in, gshow(gg), gshow(wg))
 	}
@@ -291,7 +303,7 @@ func Check(r *ev.Run, replay string) {
 		if in.Family == "contexts" {
 			alpha = contextAlphabet()
 		}
-		judgeFam(r, rt.NewEnv(nil), alpha, in.Seq, true, in.Family)
+		judgeFam(r, newEnv(), alpha, in.Seq, true, in.Family)
 		r.Set("states", 1)
 		r.Set("transitions", 1)
 		r.Set("traces_validated_against_impl", 1)
@@ -355,7 +367,7 @@ func Check(r *ev.Run, replay string) {
 	states := make([]map[string]struct{}, 16)
 	envs := make([]*rt.Env, 16)
 	for i := range envs {
-		envs[i] = rt.NewEnv(nil)
+		envs[i] = newEnv()
 		states[i] = map[string]struct{}{}
 	}
 	var next int64 = -1
@@ -409,7 +421,7 @@ func longHistory(r *ev.Run, alpha []piece) {
 	for i := 0; i < 1200; i++ {
 		seq = append(seq, 2) // x
 	}
-	env := rt.NewEnv(nil)
+	env := newEnv()
 	got, _, sps, pan := incremental(env, alpha, seq)
 	r.Eval(1)
 	bad := pan
